@@ -115,6 +115,7 @@ func ProfileByName(name string) *Profile {
 		p.AllowInv = 100
 		p.Inputs = 6
 		p.UntilIdiom = 12
+		p.JoinWords = 6
 	case "c14", "throw": // throw / recover
 		p.Throw = true
 		p.W[KRec] = 12
